@@ -34,6 +34,9 @@ def run_case(case, tier):
         d.update(iso=case["iso"], strategy=case["strategy"], shape=case["shape"])
         viol.append({"mech": mech, "msg": "%s/%s/%s %s" % (case["iso"], case["strategy"], case["shape"], msg), "data": d})
 
+    for line in (h.get("wrapper_diff") or [])[:3]:
+        bad("wrapper_series_differ_from_direct_run", "through CalculateFeedAndMeat: " + line)
+
     bymilk = {a.animal_species: a for a in animals if a.animal_function == "milk"}
     worst = 0.0
     nsp = 0
